@@ -59,6 +59,12 @@ BOUNDS = {"quick": "edit distance <= 2 over 36 tokens (default configuration) an
 CFGS = [(True, True), (True, False), (False, True), (False, False)]   # (normalize, validate)
 
 
+
+def _init_toksets():
+    TOKSETS["full"] = TOKENS
+    TOKSETS["small"] = SMALL_TOKENS
+
+
 def neighbours(lst, tokens):
     out = []
     n = len(lst)
@@ -87,6 +93,28 @@ def ball(base, tokens, dist):
                     nxt.append(x)
         frontier = nxt
     return sorted(seen)
+
+
+_BALLS = {}
+TOKSETS = {}
+_init_toksets()
+
+
+def lists_for(base_key, bases, tokset, dist, part):
+    """part: 'd1' (distance<=1 over the full alphabet) | 'rest' (ball minus d1) | 'shell3'"""
+    k = (base_key, tokset, dist, part)
+    if k not in _BALLS:
+        base = bases[base_key]
+        full = TOKSETS["full"]
+        if part == "d1":
+            _BALLS[k] = ball(base, full, 1)
+        elif part == "rest":
+            d1 = set(ball(base, full, 1))
+            _BALLS[k] = [l for l in ball(base, TOKSETS[tokset], dist) if l not in d1]
+        else:
+            inner = set(ball(base, TOKSETS[tokset], dist - 1))
+            _BALLS[k] = [l for l in ball(base, TOKSETS[tokset], dist) if l not in inner]
+    return _BALLS[k]
 
 
 def start_state(btype, normalize, validate):
@@ -202,11 +230,12 @@ def decode_block(o):
 
 
 def job(job):
-    btype, (normalize, validate), lists, forms = job["btype"], tuple(job["cfg"]), job["lists"], job["forms"]
+    btype, (normalize, validate), forms = job["btype"], tuple(job["cfg"]), job["forms"]
+    alll = lists_for(btype, BASES, job["tokset"], job["dist"], job["part"])
+    lists = alll[job["shard"]::job["nshards"]]
     viols, outcomes = {}, {}
     n = nt = 0
     for lst in lists:
-        lst = tuple((bytes.fromhex(a), bytes.fromhex(b)) for a, b in lst)
         for form in forms:
             if form == "str":
                 try:
@@ -219,7 +248,7 @@ def job(job):
     return {"evaluations": n, "outcomes": {("%s:" % btype) + k: v for k, v in outcomes.items()}, "nontrivial": nt,
             "violations": list(viols.values()),
             "samples": [{"btype": btype, "normalize": normalize, "validate": validate,
-                         "list": [[bytes.fromhex(a).decode("latin-1"), bytes.fromhex(b).decode("latin-1")] for a, b in lists[len(lists) // 2]]}] if lists else []}
+                         "list": [[a.decode("latin-1"), b.decode("latin-1")] for a, b in lists[len(lists) // 2]]}] if lists else []}
 
 
 def replay(rec):
@@ -244,23 +273,23 @@ def run(ctx):
     total = 0
     for btype, base in BASES.items():
         for cfg in CFGS:
-            toks = TOKENS if (cfg == (True, True) or not quick) else SMALL_TOKENS
-            d2 = ball(base, toks, 2)
-            d1 = set(ball(base, TOKENS, 1))
-            plain = [l for l in d2 if l not in d1]
-            d1 = sorted(d1)
-            total += len(d2)
-            step = 1500
-            for i in range(0, len(plain), step):
-                jobs.append({"btype": btype, "cfg": list(cfg), "lists": _hexlists(plain[i:i + step]), "forms": ["bytes"]})
-            jobs.append({"btype": btype, "cfg": list(cfg), "lists": _hexlists(d1),
+            tokset = "full" if (cfg == (True, True) or not quick) else "small"
+            nrest = len(lists_for(btype, BASES, tokset, 2, "rest"))
+            nd1 = len(lists_for(btype, BASES, "full", 1, "d1"))
+            total += nrest + nd1
+            ns = max(1, nrest // 1500)
+            for i in range(ns):
+                jobs.append({"btype": btype, "cfg": list(cfg), "tokset": tokset, "dist": 2, "part": "rest", "shard": i,
+                             "nshards": ns, "forms": ["bytes"]})
+            jobs.append({"btype": btype, "cfg": list(cfg), "tokset": "full", "dist": 1, "part": "d1", "shard": 0, "nshards": 1,
                          "forms": ["bytes", "str", "HeaderTuple", "NeverIndexed"]})
         if not quick:
-            d3 = ball(base, SMALL_TOKENS, 3)
-            d2s = set(ball(base, SMALL_TOKENS, 2))
-            extra = [l for l in d3 if l not in d2s]
-            total += len(extra)
-            for i in range(0, len(extra), 3000):
-                jobs.append({"btype": btype, "cfg": [True, True], "lists": _hexlists(extra[i:i + 3000]), "forms": ["bytes"]})
+            n3 = len(lists_for(btype, BASES, "small", 3, "shell3"))
+            total += n3
+            ns = max(1, n3 // 3000)
+            for i in range(ns):
+                jobs.append({"btype": btype, "cfg": [True, True], "tokset": "small", "dist": 3, "part": "shell3", "shard": i,
+                             "nshards": ns, "forms": ["bytes"]})
+    _BALLS.clear()
     ctx.fanout("c14-%s" % ctx.tier, jobs, "job", domain="%d distinct (block type, configuration, list) cases" % total)
     ctx.fanouts[-1]["states"] = 3 * len(CFGS)
